@@ -1285,6 +1285,8 @@ _MODELS[np.linalg.inv] = _matrix.inv_model
 def np_hstack(interp, parts, *a, **k):
     if hasattr(parts, "__pyvc_hstack__"):
         return parts.__pyvc_hstack__(interp)
+    if isinstance(parts, (list, tuple)):
+        return _hstack_general(interp, parts)
     raise OutsideSubset("np.hstack of symbolic parts")
 
 
@@ -1439,3 +1441,98 @@ def if_convert_append(interp, node, frame, cond):
     cur.append_cond(cond, interp.eval(elt, frame))
     interp.trusted_used.add("encoding:if-conversion of a conditional list append")
     return True
+
+
+# ----------------------------------------------------------------------------
+# trapezoid rule, diff, cumsum (C14)
+def trapezoid_spec(y, x=None, axis=-1):
+    """np.trapezoid(y, x, axis) == sum_k (x[k+1]-x[k]) (y[k]+y[k+1]) / 2   (unit spacing if x is None)"""
+    from . import sumtheory
+    c = sym.ctx()
+    y = to_sarr(y)
+    if isinstance(y, SArr) and y.ndim == 1:
+        n = y.shape[0]
+        yf = y.copy().fn
+        if x is None:
+            terms = SArr((n - 1,), lambda k: (yf(k) + yf(k + 1)) / 2, "real")
+        else:
+            x = to_sarr(x)
+            xf = x.copy().fn if isinstance(x, SArr) else (lambda k: sym.concrete_select(np.asarray(x), (k,)))
+            terms = SArr((n - 1,), lambda k: (xf(k + 1) - xf(k)) * (yf(k) + yf(k + 1)) / 2, "real")
+        return sumtheory.ssum(c, terms)
+    raise OutsideSubset("trapezoid of a %s-d symbolic array" % getattr(y, "ndim", "?"))
+
+
+def _np_trapezoid(interp, y, x=None, dx=1.0, axis=-1):
+    if not (deep_sym(y) or deep_sym(x)):
+        return np.trapezoid(y, x, dx=dx, axis=axis)
+    interp.trusted_used.add("model:np.trapezoid == trapezoid-rule sum (SUM spec function)")
+    return trapezoid_spec(y, x, axis)
+
+
+_np_trapezoid.__name__ = "np.trapezoid"
+for _nm in ("trapezoid", "trapz"):
+    if hasattr(np, _nm):
+        _MODELS[getattr(np, _nm)] = _np_trapezoid
+
+
+@model(np.diff)
+def np_diff(interp, a, *args, **kw):
+    a = to_sarr(a)
+    f = a.copy().fn
+    return SArr((a.shape[0] - 1,), lambda k: f(k + 1) - f(k), a.dtype)
+
+
+@model(np.cumsum)
+def np_cumsum(interp, a, *args, **kw):
+    from . import sumtheory
+    a = to_sarr(a)
+    c = interp.ctx
+    A = sumtheory.materialize(c, a)
+    interp.trusted_used.add("model:np.cumsum(a)[k] == SUM(a, k+1)")
+    return SArr(a.shape, lambda k: Sym(sumtheory.SUM(A, lift(k) + 1)), "real")
+
+
+def _hstack_general(interp, parts):
+    """np.hstack of scalars and 1-d symbolic arrays"""
+    items = []
+    for p in parts:
+        if isinstance(p, SArr):
+            if p.ndim != 1:
+                raise OutsideSubset("hstack of n-d symbolic arrays")
+            items.append((p.shape[0], p.copy().fn))
+        elif isinstance(p, (list, tuple, np.ndarray)):
+            arr = np.asarray(p)
+            items.append((arr.shape[0], (lambda k, arr=arr: sym.concrete_select(arr, (k,)))))
+        else:
+            items.append((1, (lambda k, p=p: p)))
+    total = 0
+    for n, _ in items:
+        total = total + n
+
+    def fn(k):
+        off = 0
+        res = None
+        chain = []
+        for n, f in items:
+            chain.append((off, n, f))
+            off = off + n
+        res = chain[-1][2](k - chain[-1][0])
+        for off_, n_, f_ in reversed(chain[:-1]):
+            res = sym.ite(k < off_ + n_, f_(k - off_), res)
+        return res
+    return SArr((total,), fn, "real")
+
+
+@model(np.flip)
+def np_flip(interp, a, axis=None):
+    """np.flip without axis reverses EVERY axis"""
+    a = to_sarr(a)
+    f = a.copy().fn
+    shape = a.shape
+    axes = range(a.ndim) if axis is None else ([axis] if isinstance(axis, int) else list(axis))
+    axes = [ax % a.ndim for ax in axes]
+
+    def fn(*idx):
+        return f(*[(shape[d] - 1 - i) if d in axes else i for d, i in enumerate(idx)])
+    return SArr(shape, fn, a.dtype)
